@@ -124,7 +124,8 @@ Lemma score_terms_ext (inp : input) (a b : state) :
   score_terms inp a = score_terms inp b.
 Proof.
   intros Hr Hu.
-  unfold score_terms, obj_activation, obj_travel_duration, obj_vehicles_duration, obj_unplanned.
+  unfold score_terms, obj_activation, obj_travel_duration, obj_vehicles_duration, obj_unplanned,
+    obj_early, obj_late, obj_min_stops, obj_stop_balance.
   rewrite Hr. rewrite (sumZ_map_perm (unit_penalty inp) _ _ Hu). reflexivity.
 Qed.
 
@@ -1285,15 +1286,15 @@ Qed.
 (* ================================================================== *)
 
 Definition ex_opts : options :=
-  mkOptions false false false false false false false false false false false 0%Z 1%Z 0%Z 1%Z false.
+  mkOptions false false false false false false false false false false false 0%Z 1%Z 0%Z 1%Z false 0%Z 0%Z 0%Z 0%Z.
 Definition ex_mat : list (list Z) :=
   [[0;60;60;60];[60;0;60;60];[60;60;0;60];[60;60;60;0]]%Z.
 (* 2 stops (each picks up 1, stop 0 has a time window), 1 vehicle of capacity 1,
    one unit per stop *)
 Definition ex_inp : input :=
-  mkInput [] [mkIStop [(-1)%Z] 10%Z [(0%Z, 3600%Z)] None 100%Z [];
-           mkIStop [(-1)%Z] 10%Z [] None 100%Z []]
-          [mkIVehicle (Some [1%Z]) [0%Z] 0%Z None None None None None [] 0%Z true true]
+  mkInput [] [mkIStop [(-1)%Z] 10%Z [(0%Z, 3600%Z)] None 100%Z [] None 0%Z 0%Z;
+           mkIStop [(-1)%Z] 10%Z [] None 100%Z [] None 0%Z 0%Z]
+          [mkIVehicle (Some [1%Z]) [0%Z] 0%Z None None None None None [] 0%Z true true 0%Z 0%Z]
           [mkIUnit [0] []; mkIUnit [1] []]
           ex_mat ex_mat 1 ex_opts [].
 Definition ex_dummy : state := mkState [] [] [] [] [] 0%Z.
@@ -1360,7 +1361,7 @@ Qed.
 (* 2 vehicles, one unit {0,1}; stop 0 on vehicle 0, stop 1 on vehicle 1.
    (Not reachable through exec_move, but it satisfies Inv.) *)
 Definition cx_inp : input :=
-  mkInput [] [mkIStop [] 0%Z [] None 0%Z []; mkIStop [] 0%Z [] None 0%Z []]
+  mkInput [] [mkIStop [] 0%Z [] None 0%Z [] None 0%Z 0%Z; mkIStop [] 0%Z [] None 0%Z [] None 0%Z 0%Z]
           [dflt_vehicle; dflt_vehicle]
           [mkIUnit [0; 1] []]
           [] [] 0 ex_opts [].
